@@ -131,7 +131,7 @@ def build_go():
         rc, out = sh(["go", "build"] + tags + ["-o", os.path.join(BUILD, target), pkg], cwd=hdir, env=GOENV, timeout=900)
         if rc != 0:
             raise BuildError("go build %s failed:\n%s" % (target, out))
-    if REPO != "/repo":   # keep /verif clean when VERIF_REPO points at a scratch tree
+    if REPO != "/repo" and txt is not None:   # keep /verif clean when VERIF_REPO points at a scratch tree
         open(gomod, "w").write(txt)
     open(_stamp("go"), "w").write(key)
 
@@ -143,6 +143,12 @@ def regen():
     rc, out = sh([os.path.join(BUILD, "trans"), REPO, gen], timeout=300)
     if rc != 0:
         raise BuildError("translator failed:\n" + out)
+    # O ties: lib/obs_<name>.py with observe(gen_dir) runs the real code (build/implrun) over a
+    # finite domain and writes the observed table(s) into coq/Gen (only when changed)
+    import importlib
+    for fn in sorted(os.listdir(os.path.join(VERIF, "lib"))):
+        if fn.startswith("obs_") and fn.endswith(".py"):
+            importlib.import_module(fn[:-3]).observe(gen)
 
 
 def coq_project():
